@@ -47,8 +47,8 @@ theorem override_sticky (E : Engine) (d : Defects) (cx : Ctx) (t : Nat) (sf : Re
 
 /-- The dirtiness check (used by every command, and by `redo-ood`) never touches a file. -/
 theorem check_never_writes_files (ood : Bool) (R fuel : Nat) (w : World) (c : List Nat) (f mx : Nat) (seen : List Nat) :
-    (isDirty ood R fuel w c f mx seen).2.1.fs = w.fs :=
-  (isDirty_frame ood R fuel w c f mx seen).1
+    (isDirty ood R fuel w c f mx seen none).2.1.fs = w.fs :=
+  (isDirty_frame ood R fuel w c f mx seen none).1
 
 /-- Recording a build writes only the target's own name. -/
 theorem record_writes_only_target (cx : Ctx) (t : Nat) (sf : Rec) (rv : Status) (out : Option Content) (w : World)
